@@ -36,9 +36,13 @@ try:
         meta['check_results'] = {p: res[d][p][0] for p in ALL}
         meta['detected_by'] = det; meta['undecided_by'] = und
         meta['missed_by'] = [prop] if prop in ALL and prop not in det else []
+        if str(meta.get('kind', '')).startswith('behaviour-preserving'):
+            meta['silent_for'] = [p for p in ALL if res[d][p][0] == 0]
+            meta['false_alarms'] = det
+            meta['detected_by'] = []
         meta['first_reports'] = {p: res[d][p][1] for p in det + und}
         json.dump(meta, open(mp, 'w'), indent=1)
-        if os.path.basename(d)[0] == 'C':
+        if os.path.basename(d)[0] == 'C' or os.path.basename(d).startswith('W2-'):
             tot += 1; own_det += prop in det; any_det += bool(det)
         print(f"{os.path.basename(d)[:46]:46s} own={prop} {'DET' if prop in det else 'und' if prop in und else 'MISS'}  by={det} und={und}")
     print(f'agent-seeded: {tot}, detected by own property check: {own_det}, detected by any check: {any_det}')
